@@ -1104,6 +1104,8 @@ def r_dir(d):
                 open(os.path.join(ov, n_), "w").write("x\n")
                 open(os.path.join(ov, n_ + ".abstract"), "w").write("Sidecar abstract of %s\n" % n_)
             open(os.path.join(ov, ".cap", "capped.txt"), "w").write("Name=Capped title\nNumb=2\n")
+            # a malformed override (non-numeric Port=, Type= without a character, unparsable Numb=) is ignored, it does not fail the directory
+            open(os.path.join(ov, ".cap", "plain.txt"), "w").write("Port=notanumber\nType=\nNumb=x\n")
             open(os.path.join(ov, ".names"), "w").write("Name=Named title\nPath=./named.txt\n\nName=Own title\nPath=./own.txt\nAbstract=Abstract given by the block\n")
             prev_ae = cfg.get("pygopherd", "abstract_entries")
             try:
